@@ -8,6 +8,7 @@ CONSTANTS
   NoSync = FALSE
   MaxFaults = 1
   FaultCalls = {"link"}
+  RetryOn = FALSE
   CrashOn = FALSE
   BugPrecedence = TRUE
   BugLockLeak = FALSE
